@@ -105,9 +105,10 @@ structure JitEntry where
 deriving Repr, DecidableEq
 
 /-- `binary_search(&address)` on the sorted `relative_addresses`: `Ok(i)` / `Err(i) ⇒ i − 1` is the last entry
-whose address is `≤ address` (`Err(0)` ⇒ none). For equal addresses (zero-length records) `binary_search` may
-return any of them; the model picks the last one, the harness only generates duplicates behind a record that
-cannot contain the address either way. -/
+whose address is `≤ address` (`Err(0)` ⇒ none). For equal addresses (zero-length code records are followed by a
+record with the same address) `binary_search` is documented to return any of them; the implementation in the
+pinned toolchain converges to the last element that is not greater, i.e. the last of the equal ones, which is the
+only one that can contain the address. The model picks the last one; the harness generates such duplicates. -/
 def jitFind : List JitEntry → Nat → Option JitEntry
   | [], _ => none
   | e :: rest, a =>
